@@ -91,6 +91,13 @@ func HostileSeeds() []Seed {
 		add(fmt.Sprintf("strlit-illformed-%d", i), "a : 'a' ;\nS : a \""+b+"\" | \""+b+"\" S ;\n")
 		add(fmt.Sprintf("strlit-illformed-raw-%d", i), "a : 'a' ;\nS : a `"+b+"` ;\n")
 	}
+	// long terminals of multi-byte characters (a rendering that abbreviates at a byte offset - 16, 32, 40, 64 - cuts a
+	// character in two unless it counts characters)
+	for i, l := range []string{strings.Repeat("語", 15), "a" + strings.Repeat("語", 15), "ab" + strings.Repeat("語", 30), strings.Repeat("é", 40), "x" + strings.Repeat("é", 40),
+		"a" + strings.Repeat("𝄞", 20), "abc" + strings.Repeat("𝄞", 20), strings.Repeat("ab", 40)} {
+		add(fmt.Sprintf("strlit-long-%d", i), "a : 'a' ;\nS : a \""+l+"\" | \""+l+"\" S ;\n")
+	}
+	add("tokname-long", "a : 'a' ;\n"+strings.Repeat("é", 30)+"x : 'b' ;\nS : a "+strings.Repeat("é", 30)+"x ;\n")
 	// character literals
 	for _, c := range []string{`'\''`, `'\\'`, `'"'`, `'\n'`, `'\x00'`, `'\u2318'`, `'\U0010ffff'`, "'`'", `'%'`, `'{'`, `'}'`, `'\t'`, `'\a'`, `'\377'`, `'é'`, `'\ufffd'`} {
 		add("charlit-"+c, fmt.Sprintf("t : %s 'a' ;\nu : 'b' %s-%s ;\n", c, c, c))
